@@ -30,11 +30,11 @@ DEFAULT_RECURSION_LIMIT = 1000
 
 
 class Session:
-    def __init__(self, spec: Dict[str, Any]) -> None:
+    def __init__(self, spec: Dict[str, Any], scratch: str, out: Any) -> None:
         self.spec = spec
         self.src = os.environ["TEALER_SRC"].rstrip("/")
         self.root = self.src + "/tealer/"
-        self.scratch = os.environ["SIM_SCRATCH"]
+        self.scratch = scratch
         self.corpus = os.environ["SIM_CORPUS"]
         self.handles: Dict[str, Any] = {}
         self.handle_kind: Dict[str, str] = {}
@@ -49,7 +49,7 @@ class Session:
         self.want_full = set(spec.get("full", []))
         self.check_immut = bool(spec.get("immut", True))
         self.sources: Dict[str, str] = {}
-        self.real_stdout = sys.stdout
+        self.real_stdout = out
         self._import_tealer()
 
     # ------------------------------------------------------------------ set-up
@@ -223,6 +223,8 @@ class Session:
                 ctx_after.append(observe.digest(observe.function_contexts(function)))
         else:
             for name in runs:
+                if name not in by_name:
+                    continue
                 res = by_name[name].detect()
                 o = observe.output_obs(res)
                 dets.append([name, observe.digest(o)])
@@ -257,7 +259,15 @@ class Session:
         tealer = self.handles[op["h"]]
         function = self.handles.get(op["h"] + ".f")
         ev["obs"] = {}
-        self._run_detectors(tealer, function, op.get("runs"), ev)
+        have = [d.NAME for d in tealer.detectors]
+        for name in op.get("dets", []):
+            if name not in have:
+                tealer.register_detector(self.detectors[name])
+                have.append(name)
+        runs = op.get("runs")
+        if runs is not None:
+            runs = [r for r in runs if r in have]
+        self._run_detectors(tealer, function, runs, ev)
 
     def op_cli(self, op: Dict[str, Any], ev: Dict[str, Any]) -> None:
         import tealer.__main__ as tmain
@@ -419,6 +429,12 @@ class Session:
         from tealer.exceptions import TealerException
 
         ev: Dict[str, Any] = {"i": i, "op": op["op"]}
+        if "uid" in op:
+            ev["uid"] = op["uid"]
+        if op["op"] in ("build", "rerun") and op["h"] not in self.handles:
+            # the operation that should have created the handle was aborted by a fault
+            ev["outcome"] = "skipped"
+            return ev
         ev["cache0"] = self.cache_sizes()
         s1 = op.get("s1", self.spec.get("s1", "id"))
         self.s1_mode = s1
@@ -519,17 +535,39 @@ class Session:
         return {"done": True, "hashseed": os.environ.get("PYTHONHASHSEED")}
 
 
-def main() -> None:
-    real_stdout = sys.stdout
-    spec = json.loads(sys.stdin.read())
+def preload() -> None:
+    """Import everything an operation can need, so that a zygote's children start from the state
+    of an interpreter that has imported tealer and analysed nothing."""
+    import tealer.__main__  # noqa
+    import tealer.teal.parse_functions  # noqa
+    import tealer.utils.regex.regex  # noqa
+    import tealer.utils.command_line.group_config  # noqa
+    import tealer.printers.all_printers  # noqa
+    import tealer.detectors.all_detectors  # noqa
+    import pathlib, inspect, traceback  # noqa
+
+
+def run_session(scratch: str) -> None:
+    """Executes <scratch>/spec.json, streaming one JSON event per line to <scratch>/out.jsonl."""
+    with open(os.path.join(scratch, "spec.json"), encoding="utf-8") as f:
+        spec = json.loads(f.read())
+    out = open(os.path.join(scratch, "out.jsonl"), "w", encoding="utf-8")  # pylint: disable=consider-using-with
+    work = os.path.join(scratch, "w")
+    os.mkdir(work)
     try:
-        log = Session(spec).run()
+        log = Session(spec, work, out).run()
     except BaseException as e:  # noqa
         import traceback
 
         log = {"harness_error": f"{type(e).__name__}: {e}", "trace": traceback.format_exc()}
-    real_stdout.write(json.dumps(log) + "\n")
-    real_stdout.flush()
+    out.write(json.dumps(log) + "\n")
+    out.flush()
+    out.close()
+
+
+def main() -> None:
+    # exec mode: one interpreter per session, scratch directory given in SIM_SCRATCH
+    run_session(os.environ["SIM_SCRATCH"])
 
 
 if __name__ == "__main__":
